@@ -450,7 +450,7 @@ theorem strEnd_bytes (p : List Byte) : ∀ (bs : List Byte) (fuel i : Nat) (rest
     obtain ⟨h1, h2, h3, h4⟩ := hb b (by simp)
     have e : fuel + (b :: bs).length = (fuel + bs.length) + 1 := by simp; omega
     rw [e, strEnd]
-    simp only [h0, h1, h2, h3, h4, if_false, false_or]
+    simp only [h0, h1, h2, h3, h4, if_false, false_or, false_and]
     rw [ih fuel (i + 1) rest (fun x hx => hb x (List.mem_cons_of_mem _ hx)) hd']
     simp [Nat.add_assoc, Nat.add_comm 1]
 
@@ -509,7 +509,9 @@ theorem strEnd_items (p : List Byte) (post : List Byte) : ∀ (its : List SrcIte
       rw [e, strEnd]
       have n1 : (92#8 : Byte) ≠ 34#8 := by decide
       have n2 : ¬ ((92#8 : Byte) = 10#8 ∨ (92#8 : Byte) = 0#8) := by decide
-      simp only [h0, n1, n2, if_false, if_true]
+      have h1 : byteAt p (i + 1) = b :=
+        byteAt_of_drop p (i + 1) b _ (drop_add p i 1 [92#8] _ (by simpa using hd) rfl)
+      simp only [h0, n1, n2, if_false, if_true, h1, hb0, ne_eq, not_false_eq_true, and_self]
       have e2 : fuel + (renderItems its).length + 1 + tl.length + 1 = (fuel + (renderItems its).length + 1 + 1) + tl.length := by omega
       rw [e2, strEnd_bytes p tl _ (i + 2) _ (fun x hx' => xdigit_plain x (hx x hx')) hd2]
       -- one unit of fuel is left over: harmless
